@@ -449,6 +449,119 @@ def check_pairs(ctx, out, vb, rule="C06.adjacent"):
     out.inst(rule, n, 8, ["for each of the 8 key patterns of 3 lines: comparator pairs == consecutive keyed lines, in (earlier, later) order"], exhaustive=True)
 
 
+def check_key_table(ctx, out, kfs, rule="C06.keytab"):
+    """The key of a line, as a table decided by case analysis over the key extractor(s): without a
+    pattern the key is `line.trim()` and the line is skipped exactly when that is empty; with a
+    pattern the line is skipped exactly when the regex has no match, the key is the text of the
+    `value` group when that group took part in the match and the text of the whole match otherwise -
+    whether or not that text is empty."""
+    from engine import casewalk as CW
+    import itertools
+    std = CW.std_hooks()
+    n = 0
+    seen_modes = set()
+    for cb, bi, t in kfs:
+        rparams = [i for i in range(1, cb.argc + 1) if "regex::Regex" in cb.local_ty(i)]
+        opt_regex = bool(rparams) and cb.local_ty(rparams[0]).startswith("std::option::Option<")
+        modes = []
+        if not rparams or opt_regex:
+            modes.append("plain")
+        if rparams:
+            modes.append("regex")
+        for mode in modes:
+            seen_modes.add(mode)
+            cases = [dict(empty=e) for e in (True, False)] if mode == "plain" else \
+                [dict(caps=c, name=nm, get0=g, empty=e) for c, nm, g, e in itertools.product((True, False), repeat=4)]
+            for case in cases:
+                results = set()
+
+                def hook(w, bb, tt, argv, env, case=case, mode=mode):
+                    nm = callee_name(tt)
+                    a0 = w.deref_val(env, argv[0]) if argv else CW.TOP
+                    if re.search(r"regex::Regex::captures$", nm):
+                        return CW.adt("std::option::Option", "Some", 1, [("0", CW.sym("CAPS"))]) if case["caps"] else CW.adt("std::option::Option", "None", 0, [])
+                    if re.search(r"regex::Regex::(find|captures_iter|find_iter|is_match|shortest_match)", nm):
+                        return CW.sym("OTHER-REGEX-API")
+                    if re.search(r"regex::Captures(::<'h>)?::name$", nm):
+                        k = w.deref_val(env, argv[1]) if len(argv) > 1 else CW.TOP
+                        if k != CW.const("value"):
+                            return CW.adt("std::option::Option", "Some", 1, [("0", CW.sym("WRONG-GROUP"))])
+                        return CW.adt("std::option::Option", "Some", 1, [("0", CW.sym("M"))]) if case["name"] else CW.adt("std::option::Option", "None", 0, [])
+                    if re.search(r"regex::Captures(::<'h>)?::get$", nm):
+                        k = w.deref_val(env, argv[1]) if len(argv) > 1 else CW.TOP
+                        if k != CW.const(0):
+                            return CW.adt("std::option::Option", "Some", 1, [("0", CW.sym("WRONG-GROUP"))])
+                        return CW.adt("std::option::Option", "Some", 1, [("0", CW.sym("M0"))]) if case["get0"] else CW.adt("std::option::Option", "None", 0, [])
+                    if re.search(r"regex::Match(::<'h>)?::as_str$", nm) and a0[0] == "sym":
+                        return CW.sym("text", a0)
+                    if re.search(r"<impl str>::trim$", nm) and a0[0] == "sym":
+                        return CW.sym("trim", a0)
+                    if re.search(r"<impl str>::(trim_\w+|to_\w+|replace\w*|strip_\w+)$", nm) and a0[0] == "sym":
+                        return CW.sym(nm.split("::")[-1], a0)
+                    if re.search(r"<impl str>::is_empty$|string::String::is_empty$", nm) and a0[0] == "sym":
+                        return CW.const(1 if case["empty"] else 0)
+                    if re.search(r"<impl str>::len$", nm) and a0[0] == "sym":
+                        return None
+                    return std(w, bb, tt, argv, env)
+                w = CW.Walk(ctx, cb, [hook])
+
+                def on_visit(bb, env, results=results):
+                    tm = cb.blocks[bb]["term"]
+                    if tm and tm["k"] == "return":
+                        r0 = env.get(0, CW.TOP)
+                        if r0[0] == "adt" and r0[2] == "None":
+                            results.add("skip")
+                        elif r0[0] == "adt" and r0[2] == "Some":
+                            key = w.field(w.field(r0, "0"), "0")
+                            results.add("key:%s" % _show(key))
+                        else:
+                            results.add("?")
+                w.on_visit = on_visit
+                env = {1: CW.sym("LINE")}
+                if rparams:
+                    if opt_regex:
+                        env[rparams[0]] = CW.adt("std::option::Option", "Some", 1, [("0", CW.sym("RE"))]) if mode == "regex" else CW.adt("std::option::Option", "None", 0, [])
+                    else:
+                        env[rparams[0]] = CW.sym("RE")
+                try:
+                    w.explore(0, env)
+                except CW.Limit as e:
+                    out.viol(rule, "%s|%s|limit" % (rule, cb.id), ctx.where(cb), "case analysis of the key extractor did not finish (%s)" % e)
+                    continue
+                if mode == "plain":
+                    want = {"skip"} if case["empty"] else {"key:trim(LINE)"}
+                    desc = "no pattern, trimmed line %s" % ("empty" if case["empty"] else "non-empty")
+                else:
+                    if not case["caps"]:
+                        want = {"skip"}
+                    elif case["name"]:
+                        want = {"key:text(M)"}
+                    elif case["get0"]:
+                        want = {"key:text(M0)"}
+                    else:
+                        want = {"skip"}
+                    desc = "pattern; match: %s, `value` group: %s, whole match: %s, extracted text %s" % (
+                        "yes" if case["caps"] else "no", "took part" if case["name"] else "absent", "present" if case["get0"] else "absent", "empty" if case["empty"] else "non-empty")
+                if results == want:
+                    n += 1
+                else:
+                    out.viol(rule, "%s|%s|%s" % (rule, mode, "+".join("%s=%d" % (k, int(v)) for k, v in sorted(case.items()))), ctx.where(cb),
+                             "key extraction (%s): the outcome is %s; expected %s (`skip`: the line takes no part in the comparison; M: the `value` group, M0: the whole match)" % (desc, sorted(results), sorted(want)))
+    out.inst(rule, n, 18, ["plain: 2 cases; pattern: 16 cases (match x value group x whole match x empty text)"], exhaustive=True)
+    if seen_modes != {"plain", "regex"}:
+        out.viol(rule, "%s|modes" % rule, "-", "key extractors cover the modes %s; expected both the plain and the pattern mode" % sorted(seen_modes))
+
+
+def _show(v):
+    if v[0] == "sym":
+        if len(v) == 2:
+            return str(v[1])
+        return "%s(%s)" % (v[1], ", ".join(_show(x) if isinstance(x, tuple) else str(x) for x in v[2:]))
+    if v[0] == "const":
+        return repr(v[1])
+    return v[0]
+
+
 def run(ctx, out, tier):
     vb = work_view(ctx)
     if vb is None:
@@ -557,6 +670,7 @@ def run(ctx, out, tier):
         if extra:
             out.viol("C06.key", "C06.key|input-transformed|%s" % cb.id, ctx.where(vb, t["span"]), "the line is transformed (%s) before key extraction" % extra)
     out.inst("C06.key", n_key, 8, [k[0].id for k in kfs])
+    check_key_table(ctx, out, kfs)
 
     shared.sh_err(ctx, out, ctx.validator_bodies(NAME), floor=10)
     shared.sh_state(ctx, out, NAME)
